@@ -177,6 +177,8 @@ class Ctx:
         for k, v in self.vars.items():
             val = m.eval(v, model_completion=True)
             out[k] = z3_to_py(val)
+        for k, b in getattr(self, "bstrs", {}).items():
+            out[k] = b.value(m)
         return out
 
     def check(self, cond: "SymBool | bool | z3.BoolRef", label: str, info: Any = None) -> bool:
@@ -351,8 +353,12 @@ def to_z3int(x: Any) -> z3.ArithRef:
     raise Unsupported(f"to_z3int({type(x).__name__})")
 
 
+EXTRA_SYM_TYPES: list = []
+FSTR_HOOKS: list = []
+
+
 def is_sym(x: Any) -> bool:
-    return isinstance(x, (SymBool, SymInt, SymReal, SymFloat, SymTok, SymStr))
+    return isinstance(x, (SymBool, SymInt, SymReal, SymFloat, SymTok, SymStr, SymZStr)) or isinstance(x, tuple(EXTRA_SYM_TYPES))
 
 
 class SymBool:
@@ -1396,6 +1402,33 @@ def _lt(a: Any, b: Any) -> bool:
     return bool(a < b)
 
 
+def s_fstr(parts: list) -> Any:
+    for typ, hook in FSTR_HOOKS:
+        if any(isinstance(p, typ) for p in parts):
+            return hook(parts)
+    if not any(is_sym(p) for p in parts):
+        return "".join(format(p, "") if not isinstance(p, str) else p for p in parts)
+    acc: Any = None
+    for p in parts:
+        if isinstance(p, SymZStr):
+            t = p.t
+        elif isinstance(p, (SymInt, SymBool)) and not isinstance(p, SymBool):
+            # rendered ints are fresh strings over the decimal-numeral language (over-approximation:
+            # the link to the int's value is dropped; str.from_int makes both solvers time out)
+            c = cur()
+            k = getattr(c, "_fresh_num", 0)
+            c._fresh_num = k + 1  # type: ignore[attr-defined]
+            t = z3.String(f"num!{k}")
+            digits = z3.Union(z3.Re("0"), z3.Concat(z3.Range("1", "9"), z3.Star(z3.Range("0", "9"))))
+            c.solver.add(z3.InRe(t, z3.Concat(z3.Option(z3.Re("-")), digits)), z3.Length(t) <= 4)
+        elif is_sym(p):
+            raise Unsupported(f"f-string of {type(p).__name__}")
+        else:
+            t = z3.StringVal(p if isinstance(p, str) else format(p, ""))
+        acc = t if acc is None else z3.Concat(acc, t)
+    return SymZStr(acc)
+
+
 SHIMS: dict[str, Any] = {
     "int": s_int,
     "bool": s_bool,
@@ -1421,6 +1454,20 @@ class _Rewriter(ast.NodeTransformer):
         if isinstance(node.func, ast.Name) and node.func.id in self.names:
             node.func = ast.copy_location(ast.Name(id="__symx_" + node.func.id, ctx=ast.Load()), node.func)
         return node
+
+    def visit_JoinedStr(self, node: ast.JoinedStr) -> ast.AST:
+        self.generic_visit(node)
+        parts: list[ast.expr] = []
+        for v in node.values:
+            if isinstance(v, ast.Constant):
+                parts.append(v)
+            elif isinstance(v, ast.FormattedValue) and v.format_spec is None and v.conversion == -1:
+                parts.append(v.value)
+            else:
+                # formatted with a spec/conversion: keep as a nested plain f-string
+                parts.append(ast.JoinedStr(values=[v]))
+        call = ast.Call(func=ast.Name(id="__symx_fstr", ctx=ast.Load()), args=[ast.List(elts=parts, ctx=ast.Load())], keywords=[])
+        return ast.copy_location(call, node)
 
     def visit(self, node: ast.AST) -> Any:
         if self.extra is not None:
@@ -1456,6 +1503,7 @@ class Kernel:
         self.ns: dict[str, Any] = dict(mod.__dict__)
         for k, v in shims.items():
             self.ns["__symx_" + k] = v
+        self.ns["__symx_fstr"] = s_fstr
         if extra_globals:
             self.ns.update(extra_globals)
         self.funcs: dict[str, Any] = {}
@@ -1551,7 +1599,17 @@ class SymZStr:
         return Not(self.__eq__(o))
 
     def __hash__(self) -> int:
-        raise Unsupported("hash of symbolic string")
+        # constant hash: set/dict membership is then decided by the symbolic __eq__ (forks);
+        # collisions are legal, so this is exact
+        return 0
+
+    def split(self, sep: Any = None, maxsplit: int = -1) -> "_SymSplit":
+        if sep is None:
+            raise Unsupported("str.split() without separator on symbolic string")
+        return _SymSplit(self, self._c(sep))
+
+    def find(self, sub: Any, start: Any = 0) -> SymInt:
+        return SymInt(z3.IndexOf(self.t, self._c(sub), to_z3int(start)))
 
     def startswith(self, p: Any) -> SymBool:
         return SymBool(z3.PrefixOf(self._c(p), self.t))
@@ -1588,6 +1646,20 @@ class SymZStr:
 
     def __repr__(self) -> str:
         return f"SymZStr({self.t})"
+
+
+class _SymSplit:
+    """Result of SymZStr.split(sep): only [0] (text before the first separator) is modelled."""
+
+    def __init__(self, s: SymZStr, sep: Any):
+        self.s = s
+        self.sep = sep
+
+    def __getitem__(self, i: Any) -> SymZStr:
+        if i != 0:
+            raise Unsupported("split()[i] for i != 0 on symbolic string")
+        idx = z3.IndexOf(self.s.t, self.sep, 0)
+        return SymZStr(z3.If(idx < 0, self.s.t, z3.SubString(self.s.t, 0, idx)))
 
 
 def zstr(ctx: "Ctx", name: str, maxlen: "int | None" = None) -> SymZStr:
